@@ -4,7 +4,7 @@ from harness import common, reader, sysimg, syslevel, sysprops
 MODULE = 'C06'
 THEOREMS = ['C06_bytes_depend_only_on_edits', 'C06_final_image_is_from_scratch', 'C06_every_write_consistent',
             'C06_flag_hypothesis_necessary', 'C06_nonvacuous']
-RECIPES = ['exact_fill', 'ptable_boundary', 'ce_gap_exact', 'deep_tree', 'udf_fid_cross']
+RECIPES = ['exact_fill', 'ptable_boundary', 'ce_gap_exact', 'deep_tree', 'udf_fid_cross', 'ce_second_block_release', 'symlink_ce_release', 'reloc_churn']
 UNMARKED = ('set_hidden',)       # edits that neither flag nor influence the derived metadata
 ACTS = ('force', 'get_record', 'list', 'walk', 'write', 'query_all')
 
